@@ -42,6 +42,8 @@ F = "src/functions.rs"
 CMP = [9]                   # the compare family (needs 1-8)
 ENC = [10]                  # ... on encoded documents
 KEY = [17]                  # the convert_to_comparable family (needs 1-16)
+CON = [21]                  # the containment family (needs 1-20)
+NUM = "src/number.rs"
 
 CA_HEAD = ("    let mut jentry_offset = 0;\n    let mut left_val_offset = 4 * left_length;\n"
            "    let mut right_val_offset = 4 * right_length;\n")
@@ -98,6 +100,26 @@ MUTATIONS = [
     ("ctc-array-depth-0", F, "            array_convert_to_comparable(depth + 1, length, &value[4..], buf);", "            array_convert_to_comparable(depth, length, &value[4..], buf);", 0, KEY, "convert_to_comparable_jsonb_agrees"),
     ("ctc-scalar-payload-from-4", F, "            scalar_convert_to_comparable(depth, &jentry, &value[8..], buf);", "            scalar_convert_to_comparable(depth, &jentry, &value[4..], buf);", 0, KEY, "convert_to_comparable_jsonb_agrees"),
     ("ctc-object-level-array", F, "            buf.push(depth);\n            buf.push(OBJECT_LEVEL);", "            buf.push(depth);\n            buf.push(ARRAY_LEVEL);", 0, KEY, "convert_to_comparable_jsonb_agrees"),
+    # Number::eq, scalar_eq, array_contains
+    ("neq-less-is-equal", NUM, "        self.cmp(other) == Ordering::Equal", "        self.cmp(other) == Ordering::Less", 0, CON, "number_eq_agrees"),
+    ("se-strings-decoded", F, "    if type_code == NUMBER_TAG {\n        match (Number::decode(left), Number::decode(right)) {", "    if type_code == STRING_TAG {\n        match (Number::decode(left), Number::decode(right)) {", 0, CON, "scalar_eq_agrees"),
+    ("se-numbers-unequal", F, "            (Ok(l), Ok(r)) => l == r,", "            (Ok(l), Ok(r)) => l != r,", 0, CON, "scalar_eq_agrees"),
+    ("se-undecodable-equal", F, "            (Ok(l), Ok(r)) => l == r,\n            _ => false,", "            (Ok(l), Ok(r)) => l == r,\n            _ => true,", 0, CON, "scalar_eq_agrees"),
+    ("ac-type-check-dropped", F, "        if jentry.type_code != val_jentry.type_code {\n            continue;\n        }\n", "", 0, CON, "ac_loop1_step"),
+    ("ac-match-answers-false", F, "        if scalar_eq(jentry.type_code, arr_val, val) {\n            return true;", "        if scalar_eq(jentry.type_code, arr_val, val) {\n            return false;", 0, CON, "ac_loop1_step"),
+    # contains_jsonb, contains
+    ("cj-scalar-payload-from-4", F, "        return Ok(array_contains(left, l_header, &right[8..], r_jentry));", "        return Ok(array_contains(left, l_header, &right[4..], r_jentry));", 0, CON, "contains_jsonb_step"),
+    ("cj-size-test-inverted", F, "            if l_size < r_size {\n                return Ok(false);", "            if l_size > r_size {\n                return Ok(false);", 0, CON, "contains_jsonb_step"),
+    ("cj-kind-mismatch-true", F, "    if l_type != r_type {\n        return Ok(false);", "    if l_type != r_type {\n        return Ok(true);", 0, CON, "contains_jsonb_step"),
+    ("cj-missing-member-true", F, "                    None => return Ok(false),", "                    None => return Ok(true),", 0, CON, "cj_loop1_step"),
+    ("cj-member-type-ignored", F, "                        if l_jentry.type_code != r_jentry.type_code {\n                            return Ok(false);\n                        }\n", "", 0, CON, "cj_loop1_step"),
+    ("cj-member-value-from-0", F, "                        let l_val = &left[l_val_offset..l_val_offset + l_jentry.length as usize];", "                        let l_val = &left[0..l_val_offset + l_jentry.length as usize];", 0, CON, "cj_loop1_step"),
+    ("cj-nested-scalars-searched", F, "                        .filter(|(l_jentry, _)| l_jentry.type_code == CONTAINER_TAG)", "                        .filter(|(l_jentry, _)| l_jentry.type_code != CONTAINER_TAG)", 0, CON, "cj_loop3_step"),
+    ("cj-nested-no-break", F, "                            contains_nested = true;\n                            break;", "                            contains_nested = true;", 1, CON, "cj_loop2_step"),
+    ("cj-nested-result-ignored", F, "                    if !contains_nested {\n                        return Ok(false);\n                    }\n", "", 0, CON, "cj_loop3_step"),
+    ("cj-scalar-types-differ", F, "            Ok(l_jentry.type_code == r_jentry.type_code\n                && scalar_eq(", "            Ok(l_jentry.type_code != r_jentry.type_code\n                && scalar_eq(", 0, CON, "contains_jsonb_step"),
+    ("ct-error-is-true", F, "    contains_jsonb(left, right).unwrap_or(false)", "    contains_jsonb(left, right).unwrap_or(true)", 0, CON, "contains_jsonb_doc_agrees"),
+    ("ct-sniff-and", F, "    if !is_jsonb(left) || !is_jsonb(right) {\n        return match (from_slice(left), from_slice(right)) {", "    if !is_jsonb(left) && !is_jsonb(right) {\n        return match (from_slice(left), from_slice(right)) {", 0, CON, "contains_text_agrees"),
 ]
 
 # harmless re-spellings: different generated text, same logic -> the proofs must still go through
@@ -111,6 +133,10 @@ RESPELLINGS = [
     ("ac-offset-commuted", F, AC_HEAD, AC_HEAD.replace("4 * length", "length * 4"), 0, KEY),
     ("oc-key-offset-commuted", F, "    let mut key_offset = 8 * length;", "    let mut key_offset = length * 8;", 0, KEY),
     ("sc-mask-spelled-hex", F, "                        b[0] ^= 0x80;\n", "                        b[0] ^= 128;\n", 0, KEY),
+    ("cj-size-test-flipped", F, "            if l_size < r_size {\n                return Ok(false);", "            if r_size > l_size {\n                return Ok(false);", 0, CON),
+    ("cj-kind-test-flipped", F, "    if l_type != r_type {\n        return Ok(false);", "    if r_type != l_type {\n        return Ok(false);", 0, CON),
+    ("cj-container-test-flipped", F, "                        if r_jentry.type_code != CONTAINER_TAG {", "                        if CONTAINER_TAG != r_jentry.type_code {", 0, CON),
+    ("ac-type-test-flipped", F, "        if jentry.type_code != val_jentry.type_code {\n            continue;", "        if val_jentry.type_code != jentry.type_code {\n            continue;", 0, CON),
 ]
 
 # changes that leave the subset / remove a target: the tool must say so and keep the committed block
@@ -119,6 +145,8 @@ RETENTION = [
      "src/functions.rs::scalar_convert_to_comparable", "unsupported"),
     ("renamed-away", F, "fn compare_array(\n", "fn compare_arr(\n", 0,
      "src/functions.rs::compare_array", "missing"),
+    ("out-of-subset-skip", F, "                    let l_nested: Vec<_> = iterate_array(left, l_header)\n                        .filter", "                    let l_nested: Vec<_> = iterate_array(left, l_header)\n                        .skip(1)\n                        .filter", 0,
+     "src/functions.rs::contains_jsonb", "unsupported"),
     ("out-of-subset-text-chain", F, "    } else if !is_jsonb(right) {\n        match parse_value(right) {", "    } else if right.is_empty() {\n        match parse_value(right) {", 0,
      "src/functions.rs::compare", "unsupported"),
 ]
